@@ -213,3 +213,115 @@ package props
 //@ func props.ObjProps["!"](env, kwargs, args) res
 //@   requires argsOK(args) && env != nil && kwargs != nil
 //@   ensures len(args) >= 1 ==> ncalls == 1 && called(0, "object.BuiltInFunc") && res == (result(0) == object.BuiltInTrue ? object.BuiltInFalse : object.BuiltInTrue)
+//
+// ---- C14: `_iter` hands chains a copy, so that a chain never advances the iterator it is applied to ------
+//@ props C14
+//@ func props.copiedIterFromIter(self) res
+//@   requires self != nil && self.Env != nil
+//@   let e := self.Env
+//@   ensures  self.FuncKind != object.IterFunc ==> isT(res, *object.PanErr)
+//@   ensures  self.FuncKind == object.IterFunc ==> isT(res, *object.PanFunc) && fresh(res) && as(res, *object.PanFunc).FuncKind == object.IterFunc && as(res, *object.PanFunc).FuncWrapper == self.FuncWrapper
+//@   ensures  self.FuncKind == object.IterFunc ==> fresh(as(res, *object.PanFunc).Env) && fresh(as(res, *object.PanFunc).Env.Store) && as(res, *object.PanFunc).Env.outer == e.outer && self.Env == e
+//@   ensures  self.FuncKind == object.IterFunc ==> (forall h uint64 :: {as(res, *object.PanFunc).Env.Store[h]} has(as(res, *object.PanFunc).Env.Store, h) ==> has(e.Store, h) && as(res, *object.PanFunc).Env.Store[h] == e.Store[h])
+//@   ensures  self.FuncKind == object.IterFunc ==> (forall h uint64 :: {has(e.Store, h)} has(e.Store, h) ==> has(as(res, *object.PanFunc).Env.Store, h))
+//@   assigns  nothing
+//@ func props.copiedIterFromBuiltInIter(self) res
+//@   requires self != nil && self.Env != nil && self.Fn != nil
+//@   let e := self.Env
+//@   ensures  isT(res, *object.PanBuiltInIter) && fresh(res) && fresh(as(res, *object.PanBuiltInIter).Env) && fresh(as(res, *object.PanBuiltInIter).Env.Store) && as(res, *object.PanBuiltInIter).Env.outer == e.outer
+//@   ensures  forall h uint64 :: {as(res, *object.PanBuiltInIter).Env.Store[h]} has(as(res, *object.PanBuiltInIter).Env.Store, h) ==> has(e.Store, h) && as(res, *object.PanBuiltInIter).Env.Store[h] == e.Store[h]
+//@   ensures  forall h uint64 :: {has(e.Store, h)} has(e.Store, h) ==> has(as(res, *object.PanBuiltInIter).Env.Store, h)
+//@   assigns  nothing
+//
+// ---- C13: try / Either ------------------------------------------------------------------------------
+//@ props C13
+// eitherVal(r, v): r is an EitherVal object holding exactly v;  eitherErr(r, w): an EitherErr holding exactly w
+//@ spec macro eitherVal(r object.PanObject, v object.PanObject) bool = isT(r, *object.PanObj) && as(r, *object.PanObj).proto == object.BuiltInEitherValObj && has(*as(r, *object.PanObj).Pairs, symhash("_value")) && (*as(r, *object.PanObj).Pairs)[symhash("_value")].Value == v && len(*as(r, *object.PanObj).Pairs) == 1
+//@ spec macro eitherErr(r object.PanObject, w object.PanObject) bool = isT(r, *object.PanObj) && as(r, *object.PanObj).proto == object.BuiltInEitherErrObj && has(*as(r, *object.PanObj).Pairs, symhash("_error")) && (*as(r, *object.PanObj).Pairs)[symhash("_error")].Value == w && len(*as(r, *object.PanObj).Pairs) == 1
+// slotOf(o, name): what an accessor reads - the own `name` entry of the first obj on o's prototype chain
+//@ spec macro hasSlot(o object.PanObject, name string) bool = traceObj(o) != nil && has(*traceObj(o).Pairs, symhash(name))
+//@ spec macro slotOf(o object.PanObject, name string) object.PanObject = (*traceObj(o).Pairs)[symhash(name)].Value
+//
+//@ func props.toEitherVal(o) res
+//@   requires isVal(o)
+//@   ensures  eitherVal(res, o) && fresh(res)
+//@   assigns  nothing
+//@ func props.toEitherErr(e) res
+//@   requires e != nil
+//@   ensures  eitherErr(res, e) && fresh(res)
+//@   assigns  nothing
+// v.try wraps v itself
+//@ func props.ObjProps["try"](env, kwargs, args) res
+//@   requires argsOK(args)
+//@   ensures  len(args) < 1 ==> isT(res, *object.PanErr)
+//@   ensures  len(args) >= 1 ==> eitherVal(res, args[0])
+//@   assigns  EC
+//
+// a step on a value: the step is called exactly once with the held value; its result is held as is, an error it
+// raises is captured with the same kind and message
+//@ func props.EitherValProps["fmap"](env, kwargs, args) res
+//@   uses     traceObj_def
+//@   requires argsOK(args) && env != nil
+//@   let ok := len(args) >= 2 && hasSlot(args[0], "_value")
+//@   let held := slotOf(args[0], "_value")
+//@   ensures  !ok ==> isT(res, *object.PanErr) && ncalls == 0
+//@   ensures  ok ==> ncalls == 1 && called(0, "object.BuiltInFunc") && arg1(0) == env && nvarargs(0) == 4 && arg4(0) == args[1] && isT(arg5(0), *object.PanStr) && as(arg5(0), *object.PanStr).Value == "call" && arg6(0) == held
+//@   ensures  ok && !isT(result(0), *object.PanErr) ==> eitherVal(res, result(0))
+//@   ensures  ok && isT(result(0), *object.PanErr) ==> isT(res, *object.PanObj) && as(res, *object.PanObj).proto == object.BuiltInEitherErrObj && has(*as(res, *object.PanObj).Pairs, symhash("_error")) && len(*as(res, *object.PanObj).Pairs) == 1
+//@   ensures  ok && isT(result(0), *object.PanErr) ==> isT((*as(res, *object.PanObj).Pairs)[symhash("_error")].Value, *object.PanErrWrapper) && as((*as(res, *object.PanObj).Pairs)[symhash("_error")].Value, *object.PanErrWrapper).PanErr.ErrKind == as(result(0), *object.PanErr).ErrKind && as((*as(res, *object.PanObj).Pairs)[symhash("_error")].Value, *object.PanErrWrapper).PanErr.Msg == as(result(0), *object.PanErr).Msg
+//@   assigns  EC
+// a step on a captured error is skipped: nothing is called and the same Either comes back
+//@ func props.EitherErrProps["fmap"](env, kwargs, args) res
+//@   requires argsOK(args)
+//@   ensures  len(args) < 2 ==> isT(res, *object.PanErr)
+//@   ensures  len(args) >= 2 ==> res == args[0]
+//@   ensures  ncalls == 0
+//@   assigns  nothing
+//
+// accessors report the single outcome
+//@ func props.EitherValProps["val"](env, kwargs, args) res
+//@   uses     traceObj_def
+//@   requires argsOK(args)
+//@   ensures  len(args) >= 1 && hasSlot(args[0], "_value") ==> res == slotOf(args[0], "_value")
+//@   ensures  !(len(args) >= 1 && hasSlot(args[0], "_value")) ==> isT(res, *object.PanErr)
+//@   assigns  EC
+//@ func props.EitherValProps["or"](env, kwargs, args) res
+//@   uses     traceObj_def
+//@   requires argsOK(args)
+//@   ensures  len(args) >= 2 && hasSlot(args[0], "_value") ==> res == slotOf(args[0], "_value")
+//@   ensures  !(len(args) >= 2 && hasSlot(args[0], "_value")) ==> isT(res, *object.PanErr)
+//@   assigns  EC
+//@ func props.EitherValProps["err"](env, kwargs, args) res
+//@   requires argsOK(args)
+//@   ensures  len(args) >= 1 ==> res == object.BuiltInNil
+//@   ensures  len(args) < 1 ==> isT(res, *object.PanErr)
+//@   assigns  EC
+//@ func props.EitherValProps["A"](env, kwargs, args) res
+//@   uses     traceObj_def
+//@   requires argsOK(args)
+//@   ensures  len(args) >= 1 && hasSlot(args[0], "_value") ==> isT(res, *object.PanArr) && fresh(res) && len(as(res, *object.PanArr).Elems) == 2 && as(res, *object.PanArr).Elems[0] == slotOf(args[0], "_value") && as(res, *object.PanArr).Elems[1] == object.BuiltInNil
+//@   ensures  !(len(args) >= 1 && hasSlot(args[0], "_value")) ==> isT(res, *object.PanErr)
+//@   assigns  EC
+//@ func props.EitherErrProps["val"](env, kwargs, args) res
+//@   requires argsOK(args)
+//@   ensures  len(args) >= 1 ==> res == object.BuiltInNil
+//@   ensures  len(args) < 1 ==> isT(res, *object.PanErr)
+//@   assigns  EC
+//@ func props.EitherErrProps["or"](env, kwargs, args) res
+//@   requires argsOK(args)
+//@   ensures  len(args) >= 2 ==> res == args[1]
+//@   ensures  len(args) < 2 ==> isT(res, *object.PanErr)
+//@   assigns  EC
+//@ func props.EitherErrProps["err"](env, kwargs, args) res
+//@   uses     traceObj_def
+//@   requires argsOK(args)
+//@   ensures  len(args) >= 1 && hasSlot(args[0], "_error") ==> res == slotOf(args[0], "_error")
+//@   ensures  !(len(args) >= 1 && hasSlot(args[0], "_error")) ==> isT(res, *object.PanErr)
+//@   assigns  EC
+//@ func props.EitherErrProps["A"](env, kwargs, args) res
+//@   uses     traceObj_def
+//@   requires argsOK(args)
+//@   ensures  len(args) >= 1 && hasSlot(args[0], "_error") ==> isT(res, *object.PanArr) && fresh(res) && len(as(res, *object.PanArr).Elems) == 2 && as(res, *object.PanArr).Elems[0] == object.BuiltInNil && as(res, *object.PanArr).Elems[1] == slotOf(args[0], "_error")
+//@   ensures  !(len(args) >= 1 && hasSlot(args[0], "_error")) ==> isT(res, *object.PanErr)
+//@   assigns  EC
+
